@@ -31,6 +31,30 @@ CLAIMED = {
          "MC_Axioms: TLC checks commutativity, associativity, identity, inverse, closure, encoding injectivity, n-fold addition, dependence on n mod q and the three distributive laws of the specification's value-level group operations exhaustively over all triples of subgroup elements and all (a, b, m in [-q,2q], n) on toy integer groups and toy Edwards curves. The real element API is then driven over complete operation tables (add, scalarmult for every n in [-q,2q], ==, !=, negate, subtract; operands obtained through 7 different API paths incl. results of operations, Zero on either side, decoded elements; type of every result and whether the result accepts a negative scalar) on toy groups running the library's own code, and over edge/random operands on the four shipped groups; every table row is validated by TLC against the specification.",
          "TLC 1.8; BigNat overrides; full-size operands are edge cases + seeded random, not all",
          "TLA+ model checked by TLC + table validation of the real element API", "6/C13"),
+ "C11": ("model_checking",
+         "MC_Randrange: for every width 1..256 (all 256 first draws; all two-draw logs for small widths) and for 2-byte widths (quick: edge widths; thorough: every width 257..1024; all 65536 first draws each) TLC proves that the masked candidate is the draw mod 2^bits, that each value of the range has exactly 2^(8nb-bits) accepting draws, nothing outside is returned and acceptance probability is >= 1/2; EntropyOnlyInStart is an invariant of every session model. The real unbiased_randrange is tabulated over every first draw for the same widths and validated by TLC; streams all-zero, all-ones, q-1, q, q+1, top byte just above the mask and forced redraws run through unbiased_randrange and through sessions on the three shipped q and L (64-byte reduction); every session trace of every check carries the entropy log, so entropy drawn outside start() is rejected anywhere.",
+         "TLC 1.8; BigNat overrides; 3-byte and wider ranges are covered by edge streams, not by complete enumeration",
+         "TLA+ model checked by TLC + table/trace validation of the real sampler", "6/C11"),
+ "C12": ("model_checking",
+         "MC_EdFormulas: on toy twisted Edwards curves with 8L points (cofactor 8, Q = 5 mod 8) TLC checks the three line-by-line transcriptions of the library's formulas against the affine Edwards law for ALL pairs of curve points (identity, equal, opposite, all torsion points) in every projective scaling of a set (all 36 scalings of the 40-point curve in thorough), completeness of the affine law, both ladders, the side condition of the dedicated addition inside the fast ladder, and that the dedicated formula really fails outside its side condition. The library's own three functions (toy constants substituted at AST level) are run on the same cases and compared projectively by TLC; on the real curve, points computed by TLC from the specification (8 torsion points, orders L/2L/4L/8L, random multiples) with random scalings are pushed through the three functions and compared with the affine law evaluated by TLC over GF(2^255-19).",
+         "This is exhaustive over small fields plus randomized identity testing at full size (the functions are checked to be straight-line arithmetic, so a wrong formula survives one random full-size point with probability < 2^-240); it is NOT a proof of the polynomial identities over GF(2^255-19)",
+         "TLA+ model checked by TLC + table validation of the library's formulas", "6/C12"),
+ "C14": ("model_checking",
+         "MC_Derive: on toy groups the maps after HKDF are total functions of a small number; TLC enumerates every h in [0,p) resp. every y in [0,Q) and proves in-subgroup/non-identity except for the degenerate h of integer groups (finding F7, which TLC must exhibit). The real password_to_scalar and arbitrary_element are run on a password/seed list (empty, >1 hash block, NULs, non-ASCII, random) on toy and shipped groups and validated byte-exact by TLC with HKDF/HMAC defined in TLA+ over real SHA-256; live M, N, S of the four shipped sets are compared with the released constants; the specification itself is validated against the published P2S/AE/HKDF vectors (Published.tla).",
+         "TLC 1.8; BigNat overrides (bignum primitives and SHA-256 compression are foreign, HKDF is TLA+); F7 is a listed known finding",
+         "TLA+ model checked by TLC + event validation of the real derivations", "6/C14"),
+ "C15": ("model_checking",
+         "MC_Codec: every maxval below 2^9 (quick) / 2^12 (thorough) and every n <= maxval: big-endian, exact width, inverse, n > maxval raises, size_bytes minimal; scalar and element codecs of toy groups injective and fixed-width. The real functions are tabulated over the same complete domain and validated by TLC, plus boundary values 2^(8k)-1, 2^(8k), 2^(8k)+1 up to 385 bytes, all scalars/elements of toy groups, edge/random scalars and elements of the shipped groups.",
+         "TLC 1.8; BigNat overrides",
+         "TLA+ model checked by TLC + table validation of the real codecs", "6/C15"),
+ "C17": ("model_checking",
+         "MC_Transcript (SHA-256 as injective token): over all tuples of short strings (empty, prefixes/suffixes, ('ab','b') vs ('a','bb')) with fixed-width X, Y, K, equal keys imply equal tuples; the symmetric form ignores message order and binds everything else; without the fixed width the raw concatenation is ambiguous (witness). The real finalize functions are run on a small-alphabet domain and on realistic sizes and compared byte-exact with the TLA+ definition evaluated by TLC with real SHA-256 (anchored by the published finalize vectors).",
+         "TLC 1.8; SHA-256 modelled as collision-free in the symbolic run",
+         "TLA+ model checked by TLC + event validation of the real functions", "6/C17"),
+ "C18": ("model_checking",
+         "Specification predicates evaluated by TLC on the live constants of the four shipped sets (dumped by the harness): Miller-Rabin (24 bases, written in TLA+) for p, q, Q, L; q | p-1; generator of order exactly q; Ed25519 field, d non-square, -1 square, RFC 8032 base point of order L, point count 8L by a Hasse certificate (a point of order exactly 8L found by TLC and uniqueness of the multiple in the Hasse interval); M, N, S pairwise distinct non-identity subgroup members different from the generator and equal to the released constants; equality with the published constants; Ed25519 default. MC_Ctor: the constructor's acceptance test accepts exactly generators whose order divides q, for every g of small (p,q), in the model and on the real constructor.",
+         "primality is probabilistic (error < 4^-24 per composite); the point count relies on Hasse's theorem; published.json was transcribed once from the pinned tree and RFC 8032",
+         "TLA+ predicates evaluated by TLC on dumped constants + MC of the constructor test", "6/C18"),
 }
 checks = []
 for p in props:
